@@ -90,6 +90,8 @@ DAGS = {
     "diamond": {0: [1, 2], 1: [3], 2: [3], 3: []},
     "shared-deep": {0: [1, 2], 1: [2], 2: [3], 3: []},
     "sub-after-user": {0: [2, 1], 1: [], 2: [1]},
+    "sub-before-user": {0: [1, 2], 1: [], 2: [1]},
+    "shared-leaf-three-levels": {0: [3, 1], 1: [2], 2: [3], 3: []},
 }
 
 
